@@ -26,6 +26,7 @@ import (
 	"golang.org/x/sync/errgroup"
 	"golang.org/x/sys/unix"
 
+	"github.com/panjf2000/gnet/v2/internal/vhook"
 	"github.com/panjf2000/gnet/v2/pkg/buffer/ring"
 	errorx "github.com/panjf2000/gnet/v2/pkg/errors"
 	"github.com/panjf2000/gnet/v2/pkg/logging"
@@ -212,6 +213,7 @@ func (cli *Client) EnrollContext(c net.Conn, ctx any) (Conn, error) {
 	e := rc.Control(func(fd uintptr) {
 		dupFD, err = socket.Dup(int(fd))
 	})
+	vhook.Sys("cli.dup", nil, dupFD, 0, err)
 	if err != nil {
 		return nil, err
 	}
